@@ -37,6 +37,7 @@ from warnings import warn
 from pyrates.frontend.template.node import NodeTemplate
 from pyrates.frontend.template.edge import EdgeTemplate
 from pyrates.ir.circuit import PyRatesWarning
+from pyrates.ir.operator_graph import _promote_int_dtype
 
 
 class PopulationTemplate:
@@ -103,6 +104,8 @@ class PopulationTemplate:
                 else:
                     new_val = [base_val] * self.n
 
+                # (a variable declared with an integer default becomes a float variable if it is given non-integral values)
+                _promote_int_dtype(var_data, new_val)
                 var_data['value'] = new_val
                 var_data['shape'] = (len(new_val),)
 
